@@ -171,7 +171,7 @@ PROPS["C07"] = {
     "level_text": "Theorems: decode(encode(args)) = args for the 7-argument storeCommitment call (unbounded string/bytes, all 64-bit numbers; selector + head/tail layout); for every bid in the validated domain the calldata built from the commitment decodes to exactly its amount, block number, tx-hash string, decay window, bid signature and commitment signature (the 64-bit conversions are the identity there); in the handler model a commitment is written only after a successful submission and a failed submission yields an error and no commitment. Tied to the real handleBid + real preconf-contract wrapper: captured calldata is decoded by the Lean decoder and compared field by field with the commitment actually written, compared byte for byte with the Lean encoder's output (i.e. with go-ethereum's abi.Pack), destination = configured address, order of Send and WriteMsg; amounts up to 2^64-1 incl. [2^63, 2^64).",
     "level_note": "Trusted: Lean kernel; harness; go-ethereum abi.Pack (compared byte for byte on every accepting case); contracts-abi metadata for the selector; big.Int.Int64 on [2^63,2^64) returns the low 64 bits in the pinned Go implementation (documented as undefined; compared differentially).",
     "nontrivial_rule": "distinct accepted bids (tag, calldata length class); every case is a fresh random bid",
-    "class_of": lambda c, r: "%s|%d" % (c["in"]["tag"], len(c["in"]["bid"]["txhash"])),
+    "class_of": lambda c, r: "%s|%d" % (c["in"]["tag"], len((c["in"].get("bid") or {"txhash": ""})["txhash"])),
 }
 
 
